@@ -1051,7 +1051,7 @@ def _thin(alphabet):
     out = []
     for tag, sym in alphabet:
         if sym[0] == "r":
-            if sym[2] in (0, 5, 8, 13, 16, 31) and sym[1] != "r8hi" or (sym[1] == "r8hi" and sym[2] == 1):
+            if sym[2] in (0, 5, 8, 13, 16, 31) and sym[1] != "r8hi" or (sym[1] == "r8hi" and sym[2] in (0, 1)):   # ah shares its id with al
                 out.append((tag, sym))
         elif sym[0] == "m":
             if tag in ("mem-default", "b4", "b5", "b12", "b13", "b+i12", "b+i*8", "b+i*8+d32", "i*4+d", "rip+256", "seg5",
